@@ -500,7 +500,23 @@ def drv_ctor_list(doc, args, inst):
             return ['TT(cores with shapes %s) raises %s: %s' % (shapes, type(e).__name__, str(e)[:120])]
         return []
     we = wf_errors(t)
-    return ['TT(cores with shapes %s) is not well formed: %s' % (shapes, we)] if we else []
+    if we:
+        return ['TT(cores with shapes %s) is not well formed: %s' % (shapes, we)]
+    if 'own_lists' in doc.get('obligation', ''):
+        # history: two objects built from one list of cores; one of them is modified in place
+        n0 = len(cores)
+        a, b = TT(cores), TT(cores)
+        c0 = a.cores[0]
+        new0 = tn.randn([c0.shape[0], c0.shape[1] + 1] + list(c0.shape[2:]), dtype=tn.float64)
+        a.set_core(0, new0)
+        msgs = []
+        if cores[0] is new0 or len(cores) != n0:
+            msgs.append("a = TT(lst); a.set_core(0, c) replaced an entry of the caller's list lst")
+        web = wf_errors(b)
+        if web or b.cores[0] is new0:
+            msgs.append('a = TT(lst); b = TT(lst); a.set_core(0, core with another mode size) changed b: b.N = %s, first core of b has shape %s %s' % (list(b.N), tuple(b.cores[0].shape), web))
+        return msgs
+    return []
 
 
 def drv_ctor_none(doc, args, inst):
@@ -575,6 +591,7 @@ def drv_misuse(doc, args, inst):
         'getitem_too_many': lambda: r([2, 3])[0, 0, 0],
         'getitem_int_range': lambda: r([2, 3])[5, 0],
         'getitem_float': lambda: r([2, 3])[1.5, 0],
+        'getitem_bool': lambda: r([2, 3])[True, 0, 0],
         'getitem_str': lambda: r([2, 3])['a'],
         'getitem_two_ellipsis': lambda: r([2, 3, 4])[..., 0, ...],
         'getitem_int_on_order2': lambda: r([2, 3])[0],
@@ -700,6 +717,17 @@ def drv_copies(doc, args, inst):
         if not all(c.requires_grad for c in x.cores):
             msgs.append('detach() changed the operand')
         return msgs
+    if op == 'is_cuda':
+        try:
+            return [] if x.is_cuda() is False else ['is_cuda() returned something else than False on a CPU object']
+        except Exception as e:
+            return ['is_cuda() raises %s: %s' % (type(e).__name__, str(e)[:120])]
+    if op == 'numpy_of_conj':
+        try:
+            r = x.conj().numpy()
+        except Exception as e:
+            return ['x.conj().numpy() raises %s: %s for %s' % (type(e).__name__, str(e)[:120], descr(x))]
+        return [] if np.allclose(r, np.conj(x.full().numpy())) else ['x.conj().numpy() differs from the conjugated dense array']
     f = x.full()
     try:
         r = {'clone': lambda: x.clone(), 'detach': lambda: x.detach(), 'cpu': lambda: x.cpu(), 'to_dtype': lambda: x.to(dtype=tn.float32),
